@@ -44,16 +44,16 @@ type Val struct {
 	NZ bool
 }
 
-func vNull(tag string) Val  { return Val{K: KNull, S: tag} }
-func vBool(b bool) Val      { return Val{K: KBool, B: b} }
-func vStr(s string) Val     { return Val{K: KStr, S: s} }
-func vNum(r *big.Rat) Val   { return Val{K: KNum, N: r} }
-func vInt(i int64) Val      { return Val{K: KNum, N: new(big.Rat).SetInt64(i)} }
-func vTuple(l []Val) Val    { return Val{K: KTuple, L: l} }
+func vNull(tag string) Val      { return Val{K: KNull, S: tag} }
+func vBool(b bool) Val          { return Val{K: KBool, B: b} }
+func vStr(s string) Val         { return Val{K: KStr, S: s} }
+func vNum(r *big.Rat) Val       { return Val{K: KNum, N: r} }
+func vInt(i int64) Val          { return Val{K: KNum, N: new(big.Rat).SetInt64(i)} }
+func vTuple(l []Val) Val        { return Val{K: KTuple, L: l} }
 func vObj(m map[string]Val) Val { return Val{K: KObj, M: m} }
 
-func (v Val) isPrim() bool { return v.K == KBool || v.K == KNum || v.K == KStr }
-func (v Val) isSeq() bool  { return v.K == KList || v.K == KTuple }
+func (v Val) isPrim() bool    { return v.K == KBool || v.K == KNum || v.K == KStr }
+func (v Val) isSeq() bool     { return v.K == KList || v.K == KTuple }
 func (v Val) isMapping() bool { return v.K == KMap || v.K == KObj }
 
 func sortedKeys(m map[string]Val) []string {
